@@ -4,6 +4,7 @@ import PlasVerif.Proofs.ConfigAcyclic
 import PlasVerif.Proofs.ConfigDomain
 import PlasVerif.Proofs.ConfigTotal
 import PlasVerif.Proofs.ConfigDest
+import PlasVerif.Proofs.ConfigHist
 import PlasVerif.Proofs.ConfigRouting
 import PlasVerif.Proofs.ConfigReadBack
 import PlasVerif.Proofs.ConfigBuiltins
@@ -19,7 +20,7 @@ for an arbitrary option table `T`, any number of files with any lines, any comma
 -/
 namespace PlasVerif.Properties.C16
 open PlasVerif.Model.Config PlasVerif.Spec.Config PlasVerif.Proofs.Config PlasVerif.Proofs.ConfigInterp
-  PlasVerif.Proofs.ConfigAcyclic PlasVerif.Proofs.ConfigDest
+  PlasVerif.Proofs.ConfigAcyclic PlasVerif.Proofs.ConfigDest PlasVerif.Proofs.ConfigHist
 
 /-! ## a small table for the non-vacuity examples: `[s] name : str = "d"`, `[s] n : int = 2`, `[s] flag : bool = True
 (--flag / !--no-flag)`, `[s] items : list = []`, `[s] map : dict of int = {}` -/
@@ -591,6 +592,58 @@ theorem model_meets_spec_oracle (T : Table) (hwf : WF T = true) (hwc : WFcli T =
     have := hval j o hT
     rw [hj] at this
     exact (Option.some.inj this).symm
+
+/-! ## histories: the configuration is a mutable object that is read back at any time -/
+
+/-- **No stale read-back** ("… replaced by the *current* value of the named option").  Layers (`read` of one file,
+    `updateFromDict` of one command line) and assignments `config[s][k] = v` are applied in any order and number, and
+    everything is read back at arbitrary points in between.  Every state that is observed is, for every option, the
+    denotation of exactly the steps that precede that read-back — whatever was read before. -/
+theorem history_no_stale_readback (T : Table) (hwf : WF T = true) (hwc : WFcli T = true) (steps : List Step)
+    (hok : ∀ s ∈ steps, assignOk T s) :
+    ∀ s' ∈ (hist false T steps (init T)).1, ∃ pre post, steps = pre ++ Step.observe :: post ∧
+      ∀ i o, T[i]? = some o → denHist T pre i = some (s' i) := by
+  intro s' hs'
+  have hty : ∀ i o, T[i]? = some o → typedVal o.ty (init T i) = true := by
+    intro i o hi
+    simp only [WF, Bool.and_eq_true, List.all_eq_true] at hwf
+    have := typedDflt_val o (hwf.2 o (List.mem_of_getElem? hi))
+    simpa [init, hi] using this
+  obtain ⟨pre, post, hsplit, hden⟩ := hist_observed hwf hwc steps (init T) hty hok s' hs'
+  refine ⟨pre, post, hsplit, fun i o hi => ?_⟩
+  have := hden i o hi
+  simpa [denHist, hi, init] using this
+
+/-- … and what `config[section][key]` / `section.get(key)` return at that point is the spec's read-back of that
+    denotation (references resolved against the values of *that* moment) -/
+theorem history_readback_current (T : Table) (hwf : WF T = true) (hwc : WFcli T = true) (steps : List Step)
+    (hok : ∀ s ∈ steps, assignOk T s) :
+    ∀ s' ∈ (hist false T steps (init T)).1, ∃ pre post, steps = pre ++ Step.observe :: post ∧
+      ∀ i v, specReadBack T (denHist T pre) (fuelFor T) i = some v →
+        readBack T s' i = .ok v ∧ getDefault T s' i = .ok (some v) := by
+  intro s' hs'
+  obtain ⟨pre, post, hsplit, hden⟩ := history_no_stale_readback T hwf hwc steps hok s' hs'
+  refine ⟨pre, post, hsplit, fun i v h => ?_⟩
+  have hrb : readBack T s' i = .ok v := by
+    refine readBack_meets_oracle T (denHist T pre) s' ?_ (fuelFor T) i v h
+    intro j x hj
+    cases hT : T[j]? with
+    | none => simp [denHist, hT] at hj
+    | some o =>
+      have := hden j o hT
+      rw [hj] at this
+      exact (Option.some.inj this).symm
+  exact ⟨hrb, by simp [getDefault, hrb]⟩
+
+/-- a history that raises nothing is observed once per read-back step, in order of the steps -/
+theorem history_observation_count (T : Table) (steps : List Step) (h : (hist false T steps (init T)).2 = none) :
+    (hist false T steps (init T)).1.length = (steps.filter isObserve).length :=
+  hist_count T steps (init T) h
+
+/-- over `exR` (`a = x%(b)s`, `b = %(c)s%%`, `c = 7`): read, assign `c = 8`, read, `--c 9`, read: `a` is `x7%`, `x8%`, `x9%` -/
+example : ((hist false exR [.observe, .assign [115] [99] (.atom (.int 8)), .observe,
+      .cli [⟨[45, 45, 99], [[57]]⟩], .observe] (init exR)).1.map fun st => readBack exR st 0)
+    = [.ok (.atom (.str [120, 55, 37])), .ok (.atom (.str [120, 56, 37])), .ok (.atom (.str [120, 57, 37]))] := by decide
 
 /-- hence the layering theorem applies to the live table -/
 theorem live_table_layering (files : List File) (argv : List Occ) (st : St)
